@@ -24,7 +24,9 @@ RULE = ("one case = one call of one filter on a particle list of 1..60 rows (tho
         "caller-owned arguments are compared before/after each call. ~30 % of the calls omit the keywords whose value is the documented default "
         "(boundary_type='center', inplace=True). The particle table itself: float64 (88 %) or an all-integer int64 frame (12 %, every field a whole number); "
         "row labels 0..n-1 (80 %) or with gaps / shuffled / duplicated labels (20 %). subtomo ids: unique, restarting in every tomogram (same id in several tomograms), "
-        "or repeated at random (mask: repeated inside a tomogram only on rows that share their voxel - verbatim copies and re-picked rows with other shifts/angles, see ASSUMPTIONS). "
+        "or repeated at random (mask: also repeated inside a tomogram - on rows sharing their voxel and, 1 case in 6, on arbitrary rows = class of finding C09-K2); "
+        "15 % of the oob / trim / points lists contain rows twice VERBATIM or re-picked (same id, tomogram, position; other scores/angles); "
+        "25 % of the cases use date-style / serial tomogram numbers 1e6..1e9, neighbours included, odd numbers above 2^24 included (also in the tomogram FILE). "
         "oob: per-tomogram dimensions (different per tomogram, unsorted, extra/duplicate/missing rows; 8..128 voxels, realistic extents up to 4096 and, for large boxes, "
         "volumes around twice the half box; 4 % with a half-voxel extent) handed over as float ndarray / int ndarray / labelled DataFrame / UNLABELLED DataFrame / text file / "
         "nested list / nested tuple / flat list / flat tuple / 1-D array, boundary 'center'/'whole' with box 1..64 incl. every residue mod 4 and realistic boxes 65..260 (96, 97, 128, 129, 200, 201, 256 ...) "
@@ -49,9 +51,10 @@ ASSUMPTIONS = [
     "uses |r| like the model's r*r (inBall_neg; probed) - a negative radius is outside the quantifier ('radii') and never generated",
     "numpy astype(int) of a float = truncation toward zero (probed)",
     "pandas: boolean-mask selection and iloc keep row order; Series.unique() lists values in order of first appearance; concat keeps order",
-    "well-formedness of the mask filter (theorem cleanMask_spec_iff: exactly this is needed, cleanMask_needs_unique_ids_within_tomogram: it cannot be dropped): "
-    "two rows of ONE tomogram that carry the same subtomo_id sit on voxels of the same kind (usually: an id is not repeated inside a tomogram); "
-    "ids may repeat across tomograms",
+    "NO assumption on subtomo ids: ids repeated across tomograms and INSIDE a tomogram are generated. clean_by_tomo_mask removes by (tomo_id, subtomo_id), so it "
+    "computes the statement exactly on the lists where two rows of one tomogram sharing an id share their voxel status (cleanMask_spec_iff); on the other lists it "
+    "removes too much - open finding C09-K2 (witness cleanMask_needs_unique_ids_within_tomogram), classified by _k2_rows; there the implementation must still equal "
+    "the model of the code (`code`)",
     "the dimensions table has the N x 4 form (tomo_id x y z) of the statement's 'dimensions of the particle's own tomogram'; the 1 x 3 single-tomogram form "
     "accepted by ioutils.dimensions_load makes remove_out_of_bounds_particles raise KeyError('tomo_id') and is outside the quantifier (reported)",
     "'the box of the given size around it lies inside' is read with the CODE'S convention: half width ceil(box/2) voxels on both sides (for an odd box one half voxel more "
@@ -154,6 +157,16 @@ class _Normalise(ast.NodeTransformer):
         v = node.value
         if isinstance(v, ast.Call) and ast.unparse(v.func).replace(" ", "") in LOG_CALLS:
             return ast.copy_location(ast.Expr(value=ast.Call(func=ast.Name(id="LOG", ctx=ast.Load()), args=[], keywords=[])), node)
+        return node
+
+    NEG = {ast.Lt: ast.GtE, ast.GtE: ast.Lt, ast.Gt: ast.LtE, ast.LtE: ast.Gt, ast.Eq: ast.NotEq, ast.NotEq: ast.Eq}
+
+    def visit_UnaryOp(self, node):
+        """`not (a OP b)` on one scalar comparison -> `a <negated OP> b` (equivalent for every number; NaN coordinates are outside the quantifier)"""
+        self.generic_visit(node)
+        v = node.operand
+        if isinstance(node.op, ast.Not) and isinstance(v, ast.Compare) and len(v.ops) == 1 and type(v.ops[0]) in self.NEG:
+            return ast.copy_location(ast.Compare(left=v.left, ops=[self.NEG[type(v.ops[0])]()], comparators=v.comparators), node)
         return node
 
     def visit_Call(self, node):
@@ -270,7 +283,8 @@ HELPERS = [(REL, "Motl.__init__"), (REL, "Motl.check_df_correct_format"), (REL, 
            (REL, "Motl.get_unique_values"), (REL, "Motl.create_empty_motl_df"),
            ("cryocat/ioutils.py", "one_value_per_line_read"), ("cryocat/ioutils.py", "tlt_load"), ("cryocat/cryomap.py", "read")]
 SKELETON_THEOREMS = {"oob": "oobSkeleton", "trim": "trimSkeleton", "mask": "maskSkeleton", "points": "pointsSkeleton", "coords": "coordsSkeleton",
-                     "dimsload": "dimsLoadSkeleton", "binarize": "binarizeSkeleton"}
+                     "dimsload": "dimsLoadSkeleton", "binarize": "binarizeSkeleton", "subset": "subsetSkeleton", "uniq": "uniqueValuesSkeleton",
+                     "tltload": "tltLoadSkeleton", "ovpl": "oneValuePerLineSkeleton", "read": "readSkeleton", "motlload": "motlLoadSkeleton"}
 
 
 def _documented_skeletons():
@@ -460,6 +474,21 @@ def translate(src):
         else:
             mask["sort_kw"] = None  # tlt_load's own default applies
         repl[id(loads[0])] = _hole("LOAD_TOMO_LIST", loads[0].args[0])
+        # ---- a text FILE of tomogram numbers: read directly with one_value_per_line_read(tomo_list, data_type=<float64>) (exact for every
+        # integer below 2^53); without such a call the file goes through tlt_load, i.e. one_value_per_line_read's DEFAULT dtype (float32)
+        EXACT = ("np.float64", "float", "np.double", "numpy.float64", "'float64'", "np.longdouble")
+        rdr = [n for n in ast.walk(fn) if isinstance(n, ast.Call) and nrm(n.func) in ("ioutils.one_value_per_line_read", "one_value_per_line_read")]
+        if len(rdr) > 1 or (rdr and (len(rdr[0].args) != 1 or nrm(rdr[0].args[0]) != "tomo_list" or any(k.arg != "data_type" for k in rdr[0].keywords))):
+            raise core.AnchorMissing("clean_by_tomo_mask: unexpected reading of the tomogram file: " + str([o(ast.unparse(n)) for n in rdr]))
+        if rdr:
+            dt = nrm(rdr[0].keywords[0].value) if rdr[0].keywords else None
+            guard = [n for n in ast.walk(fn) if isinstance(n, ast.If) and any(x is rdr[0] for st in n.body for x in ast.walk(st))]
+            if not guard or not nrm(guard[-1].test).startswith("isinstance(tomo_list,str)"):
+                raise core.AnchorMissing("clean_by_tomo_mask: the direct file reader is not guarded by `isinstance(tomo_list, str) ...`")
+            mask["file_dtype"] = dt
+            repl[id(rdr[0])] = _hole("READ_TOMO_FILE", rdr[0].args[0], _hname("EXACT_DTYPE" if dt in EXACT else (dt or "DEFAULT_DTYPE")))
+        else:
+            mask["file_dtype"] = None
         # np.all(X, axis=1) and (X).all(axis=1) are the same reduction (_Normalise gives both the first form)
         lows = [n for n in ast.walk(fn) if isinstance(n, ast.Call) and nrm(n.func) == "np.all" and n.args and isinstance(n.args[0], ast.Compare)
                 and isinstance(n.args[0].left, ast.Name) and any(k.arg == "axis" and _num(k.value) == 1 for k in n.keywords)]
@@ -532,6 +561,15 @@ def translate(src):
     A("points:body skeleton (KDTree of the particles, closed-ball query per reference point, per tomogram)", whole("points", REL, "Motl.clean_by_distance_to_points"))
     A("get_coordinates:body skeleton", whole("coords", REL, "Motl.get_coordinates"))
     A("dimensions_load:body skeleton (all input forms, N x 4 column naming)", whole("dimsload", "cryocat/ioutils.py", "dimensions_load"))
+
+    # helper bodies the four filters run through (round 7: a `drop_duplicates()` / `np.isclose` inside get_motl_subset went unnoticed while the
+    # helpers were only bound, not dumped)
+    A("get_motl_subset:body skeleton (rows whose feature EQUALS a listed value, in list order, nothing dropped)", whole("subset", REL, "Motl.get_motl_subset"))
+    A("get_unique_values:body skeleton", whole("uniq", REL, "Motl.get_unique_values"))
+    A("Motl.load:body skeleton (a Motl instance is copied into an EmMotl)", whole("motlload", REL, "Motl.load"))
+    A("tlt_load:body skeleton", whole("tltload", "cryocat/ioutils.py", "tlt_load"))
+    A("one_value_per_line_read:body skeleton (first column of the file, dtype data_type)", whole("ovpl", "cryocat/ioutils.py", "one_value_per_line_read"))
+    A("cryomap.read:body skeleton", whole("read", "cryocat/cryomap.py", "read"))
 
     tlt = {}
 
@@ -646,6 +684,13 @@ def translate(src):
     eff = None
     if "sort_kw" in mask and "default" in tlt:
         eff = tlt["default"] if mask["sort_kw"] is None else mask["sort_kw"]
+    # is a tomogram number read from a text file exact? directly with a 64-bit dtype: yes; through tlt_load: the default dtype of
+    # one_value_per_line_read decides
+    ovpl_default = dict(map(tuple, dflt.get("ovpl", []))).get("data_type")
+    EXACT = ("np.float64", "float", "np.double", "numpy.float64", "'float64'", "np.longdouble")
+    file_exact = None
+    if "file_dtype" in mask:
+        file_exact = (mask["file_dtype"] in EXACT) if mask["file_dtype"] is not None else (ovpl_default in EXACT)
     _doc_compare(src, sk)
 
     # a missing anchor falls back to the DOCUMENTED value (anchorsOk is false then, so the check fails anyway)
@@ -667,10 +712,12 @@ def oobCfg : OobCfg := {{ lower := {lower}, upper := .{upper}, rounding := .{bnd
 def trimCfg : TrimCfg := {{ offset := {trim.get("offset", 1)}, lowCmp := .{tlow[0]}, lowBound := {tlow[1]}, highCmp := .{trim.get("high", "gt")} }}
 def maskCfg : MaskCfg := {{ lowCmp := .{mask.get("low", "ge")}, highCmp := .{mask.get("high", "lt")}, zeroCmp := .{mask.get("zero", "eq")}, scope := .{mask.get("scope", "byTomoAndId")} }}
 def binarizeCfg : BinarizeCfg := {{ cmp := .{binz.get("cmp", "gt")}, thrNum := {thr[0]}, thrDen := {thr[1]} }}
-/-- the subtomo ids pass through the same bounds filter as the coordinates (a fact that was not examined falls back to the documented value) -/
-def maskIdsThroughFilter : Bool := {"true" if mask.get("ids_through", True) else "false"}
+/-- the subtomo ids pass through the same bounds filter as the coordinates (`none`: the translator could not examine it) -/
+def maskIdsThroughFilter : Option Bool := {("some true" if mask["ids_through"] else "some false") if "ids_through" in mask else "none"}
 /-- `clean_by_tomo_mask` loads `tomo_list` with an effective `sort_angles` of this value: a list read from a FILE is sorted before it is paired with the masks -/
 def maskTomoFileSorted : Bool := {"true" if (eff if eff is not None else False) else "false"}
+/-- tomogram numbers read from a text FILE arrive exactly (64-bit reader); `false`: they pass a float32 reader, which rounds numbers above 2^24 -/
+def maskTomoFileExact : Bool := {"true" if file_exact else "false"}
 def tltLoadSortDefault : Bool := {"true" if tlt.get("default", True) else "false"}
 def readTransposeAxes : List Nat := {rd.get("axes", [2, 1, 0])}
 def pointsBallQueryPerTomogram : Bool := {"true" if pp else "false"}
@@ -694,6 +741,12 @@ def pointsSkeleton : List String := {skl("points")}
 def coordsSkeleton : List String := {skl("coords")}
 def dimsLoadSkeleton : List String := {skl("dimsload")}
 def binarizeSkeleton : List String := {skl("binarize")}
+def subsetSkeleton : List String := {skl("subset")}
+def uniqueValuesSkeleton : List String := {skl("uniq")}
+def motlLoadSkeleton : List String := {skl("motlload")}
+def tltLoadSkeleton : List String := {skl("tltload")}
+def oneValuePerLineSkeleton : List String := {skl("ovpl")}
+def readSkeleton : List String := {skl("read")}
 end CryoCat.Gen.C09
 """
 
@@ -712,6 +765,18 @@ def _fr(n):
 
 DELTAS = [Fraction(1), Fraction(1, 2), Fraction(1, 4), Fraction(1, SCALE)]
 TOMO_POOL = [0, 1, 2, 3, 4, 5, 7, 12, 17, 204]
+# date-style / serial tomogram numbers (1e6..1e9), adjacent ones included, odd ones above 2^24 (not representable in float32) included
+BIG_TOMOS = [1000000, 1000001, 16777215, 16777216, 16777217, 20230115, 20230116, 20230117, 20241231, 100000001, 100000002, 999999999, 1000000000]
+
+
+def _pick_tomos(rng, k):
+    """k distinct tomogram numbers: mostly small ones; ~25 % of the cases use large numbers, preferably neighbours"""
+    if rng.random() < 0.25:
+        i = rng.randrange(len(BIG_TOMOS))
+        near = [BIG_TOMOS[(i + d) % len(BIG_TOMOS)] for d in range(k)]
+        return near if rng.random() < 0.7 else rng.sample(BIG_TOMOS, k)
+    return rng.sample(TOMO_POOL, k)
+
 
 
 def _filler(rng, k):
@@ -856,7 +921,7 @@ def _rand_dims(rng, b=0):
 
 def gen_oob(rng, tier):
     T = rng.randint(1, 4)
-    tomos = rng.sample(TOMO_POOL, T)
+    tomos = _pick_tomos(rng, T)
     r = rng.random()
     if r < 0.42:
         bt, box = "center", (None if rng.random() < 0.7 else rng.choice([rng.randint(1, 64), rng.choice(BIG_BOXES)]))
@@ -881,7 +946,7 @@ def gen_oob(rng, tier):
     variant = "plain"
     v = rng.random()
     if v < 0.15:  # a tomogram that has dimensions but no particles
-        extra = rng.choice([t for t in TOMO_POOL if t not in tomos])
+        extra = rng.choice([t for t in (TOMO_POOL + [u + d for u in tomos if u > 1000 for d in (-1, 1)]) if t not in tomos])
         extra_rows.append((rng.randrange(len(order) + 1), [_i(extra)] + [_i(x) for x in _rand_dims(rng, b)]))
         variant = "extra-tomogram"
     elif v < 0.22:  # a second, different row for a tomogram: the first one counts
@@ -928,7 +993,7 @@ def _axis_trim(rng, s, e, kind):
 
 def _trim_rows(rng, n, s, e):
     ids = _ids(rng, n)
-    tomos = rng.sample(TOMO_POOL, rng.randint(1, 4))
+    tomos = _pick_tomos(rng, rng.randint(1, 4))
     rows = []
     on, off = ["in", "in", "in", "s", "e"], ["s_below", "e_above", "far_lo", "far_hi", "neg"]
     for k in range(n):
@@ -1001,7 +1066,7 @@ def _points_pts(rng, m, tomos, cs, r, ext, g):
     """m reference points (wire rows) around the particles cs; returns (pts, r, variant) - r may be replaced by a tie radius"""
     variant = "plain"
     pts = []
-    foreign = [t for t in TOMO_POOL if t not in tomos]
+    foreign = [t for t in (TOMO_POOL + [u + d for u in tomos if u > 1000 for d in (-1, 1)]) if t not in tomos]
     for _ in range(m):
         pr = rng.random()
         if pr < 0.35 and r > 0:  # exact tie: a point at distance exactly r (or r +- one grid step) from a particle
@@ -1035,7 +1100,7 @@ def _points_pts(rng, m, tomos, cs, r, ext, g):
 
 def gen_points(rng, tier):
     T = rng.randint(1, 4)
-    tomos = rng.sample(TOMO_POOL, T)
+    tomos = _pick_tomos(rng, T)
     n = _nrows(rng, tier)
     if rng.random() < 0.2:
         n = max(n, rng.randint(25, 60))  # enough rows in one tomogram for the KD-tree to split (leafsize 10)
@@ -1119,18 +1184,29 @@ def _mask_rows(rng, n, tomos, shape_of, ids_mode):
                     cpos[k] = c
             else:
                 first.setdefault(t, []).append(k)
+    elif ids_mode == "repeat-any-voxel":
+        # an id repeated inside a tomogram with NOTHING said about the voxels (two picks merged with pd.concat, ids restarting per pick):
+        # inside the quantifier ("all particle lists"); where one of the rows sits on a zero voxel and the other does not, the code removes
+        # both (open finding C09-K2)
+        first = {}
+        for k, r in enumerate(rows):
+            t = r[I_TOMO]
+            if t in first and rng.random() < 0.5:
+                r[I_ID] = rows[rng.choice(first[t])][I_ID]
+            else:
+                first.setdefault(t, []).append(k)
     return rows
 
 
 def gen_mask(rng, tier):
     T = rng.randint(1, 4)
-    tomos = rng.sample(TOMO_POOL, T)
+    tomos = _pick_tomos(rng, T)
     single = rng.random() < 0.2
     listed = [t for t in tomos if rng.random() < 0.8] or [tomos[0]]
     rng.shuffle(listed)
     variant = "single-mask" if single else "plain"
     if rng.random() < 0.15:
-        listed.insert(rng.randrange(len(listed) + 1), rng.choice([t for t in TOMO_POOL if t not in tomos]))
+        listed.insert(rng.randrange(len(listed) + 1), rng.choice([t for t in (TOMO_POOL + [u + d for u in tomos if u > 1000 for d in (-1, 1)]) if t not in tomos]))
     raw = rng.random() < 0.3
     masks_as = rng.choice(["arrays"] * 4 + ["files"])
 
@@ -1150,7 +1226,7 @@ def gen_mask(rng, tier):
     shape_of = {}
     for i, t in enumerate(listed):
         shape_of.setdefault(t, masks[0]["shape"] if single else masks[min(i, len(masks) - 1)]["shape"])
-    ids_mode = rng.choice(["unique"] * 4 + ["per-tomogram"] * 4 + ["repeat-within-tomogram"] * 2)
+    ids_mode = rng.choice(["unique"] * 4 + ["per-tomogram"] * 4 + ["repeat-within-tomogram"] * 2 + ["repeat-any-voxel"] * 2)
     rows = _mask_rows(rng, _nrows(rng, tier), tomos, shape_of, ids_mode)
     inplace = rng.random() < 0.5
     case = dict(op="mask", scale=SCALE, rows=rows, tomos=[_i(t) for t in listed], masks=masks, single=single, variant=variant,
@@ -1177,11 +1253,31 @@ def _floor_rows(rows):
     return [[v - v % SCALE for v in r] for r in rows]
 
 
+def _duplicates(rng, rows):
+    """a particle list as `pd.concat` of overlapping picks leaves it: some rows occur twice VERBATIM, some particles were picked again
+    (same id, tomogram and position; other scores / angles). Every filter must treat such rows one by one."""
+    out = list(rows)
+    for _ in range(rng.choice([1, 1, 2, 3])):
+        j = rng.randrange(len(out))
+        r = list(out[j])
+        if rng.random() < 0.4:  # re-picked: the identifying fields and the position stay, the rest differs
+            for k in (0, 1, 2, 13, 14, 15, 16, 17, 18):
+                r[k] = _i(_filler(rng, k))
+        out.insert(rng.randrange(len(out) + 1), r)
+    return out
+
+
 def _table_forms(rng, case):
     """H3: how the particle table itself arrives. ~12 % of the cases are INTEGER lists (every field a whole number; the frame is
     int64, as a STAR file holding only integers is read) and ~20 % carry row labels other than 0..n-1 (gaps as `remove_feature`
     leaves them, shuffled, duplicated labels as `pd.concat` of two lists leaves them)."""
-    if rng.random() < 0.12 and not (case["op"] == "mask" and case.get("ids") == "repeat-within-tomogram"):
+    if case["op"] != "mask" and rng.random() < 0.15:
+        case["rows"] = _duplicates(rng, case["rows"])
+        for nxt in case.get("more") or []:
+            if rng.random() < 0.5:
+                nxt["rows"] = _duplicates(rng, nxt["rows"])
+        case["copies"] = True
+    if rng.random() < 0.12 and not (case["op"] == "mask" and case.get("ids") in ("repeat-within-tomogram", "repeat-any-voxel")):
         case["rows"] = _floor_rows(case["rows"])
         for nxt in case.get("more") or []:
             nxt["rows"] = _floor_rows(nxt["rows"])
@@ -1696,6 +1792,53 @@ def _k1_rows(case, obs):
     return out
 
 
+def _mask_pairs(case):
+    masks, tomos = case["masks"], case["tomos"]
+    if case.get("single"):
+        return [(t, masks[0]) for t in tomos]
+    return list(zip(tomos, masks)) if len(masks) == len(tomos) else None
+
+
+def _mask_hit(pairs, r):
+    v = [_trunc(c) for c in _pos(r)]
+    for t, m in pairs:
+        sh = m["shape"]
+        if t == r[I_TOMO] and all(0 <= v[a] < sh[a] for a in range(3)) and m["data"][(v[0] * sh[1] + v[1]) * sh[2] + v[2]] == 0:
+            return True
+    return False
+
+
+def _k2_rows(case, obs):
+    """class of the open finding C09-K2: input rows of a clean_by_tomo_mask call that are NOT on a zero voxel of a mask listed for their
+    tomogram, MISSING from the result (as full rows, counted with multiplicity), while another input row of the SAME tomogram with the
+    SAME subtomo_id is on a zero voxel. From the single-call case and the observation only."""
+    if case.get("op") != "mask" or "rows" not in obs:
+        return []
+    pairs = _mask_pairs(case)
+    if pairs is None:
+        return []
+    got = Counter()
+    for r in _impl_result(obs)["rows"]:
+        w = _to_wire(r)
+        if w is not None:
+            got[tuple(w)] += 1
+    hit_keys = {(r[I_TOMO], r[I_ID]) for r in case["rows"] if _mask_hit(pairs, r)}
+    want = Counter(tuple(r) for r in case["rows"] if not _mask_hit(pairs, r))
+    out = []
+    for r, n in want.items():
+        if got[r] < n and (r[I_TOMO], r[I_ID]) in hit_keys:
+            out.append(list(r))
+    return out
+
+
+def _mask_wellformed(case):
+    pairs = _mask_pairs(case)
+    if pairs is None:
+        return True
+    hit_keys = {(r[I_TOMO], r[I_ID]) for r in case["rows"] if _mask_hit(pairs, r)}
+    return not any((r[I_TOMO], r[I_ID]) in hit_keys and not _mask_hit(pairs, r) for r in case["rows"])
+
+
 def judge_one(case, obs, resp):
     """findings of ONE call. kind 'spec' only where a clause of the statement fails on the real output: decided against the
     answer `spec` of the Lean driver - the executable statement (oob_spec / trim_spec / cleanPoints_perm / cleanMaskStmt_spec) -
@@ -1717,14 +1860,16 @@ def judge_one(case, obs, resp):
     exp_n = dict(error=exp["error"]) if "error" in exp else dict(rows=_wire_of_case(exp["rows"]))
     if exp_n != spec:
         out.append(dict(kind="corr", clause="lean-spec-vs-python-oracle", detail=f"{op}: the Lean verdict and the direct evaluation of the statement differ"))
-    if "model" in resp and norm(resp["model"]) != spec:
-        # generated lists are MaskWellFormed: the documented code model and the statement agree there (cleanMask_eq_stmt)
-        out.append(dict(kind="corr", clause="lean-model-vs-statement", detail=f"{op}: the documented code model and the statement differ on a list that should be well-formed"))
+    if "model" in resp and (norm(resp["model"]) != spec) == (op != "mask" or _mask_wellformed(case)):
+        # cleanMask_spec_iff: the documented code model and the statement agree EXACTLY on the MaskWellFormed lists
+        out.append(dict(kind="corr", clause="lean-model-vs-statement", detail=f"{op}: the documented code model and the statement " +
+                        ("differ on a well-formed list" if norm(resp["model"]) != spec else "agree on a list that is not well-formed") + " (cleanMask_spec_iff says otherwise)"))
     spec_clauses = []
+    # the statement is silent about the caller's arguments and about inplace=False: deviations there are correspondence findings
     if obs.get("args_changed"):
-        spec_clauses.append(("caller-argument-modified", f"{op}: the call changed the caller's own argument(s) {obs['args_changed']} (content, dtype or labels)"))
+        out.append(dict(kind="corr", clause="caller-argument-modified", detail=f"{op}: the call changed the caller's own argument(s) {obs['args_changed']} (content, dtype or labels)"))
     if obs.get("original_changed"):
-        spec_clauses.append((f"{op}-original-altered", f"{op}: inplace=False but the list the method was called on changed"))
+        out.append(dict(kind="corr", clause=f"{op}-original-altered", detail=f"{op}: inplace=False but the list the method was called on changed"))
     if "error" in spec or "error" in impl:
         if spec != impl:
             if "error" in impl and "rows" in spec:
@@ -1783,16 +1928,23 @@ def judge_one(case, obs, resp):
             kept_wrong = [r for r in kept_wrong if r not in k1_set]
             if k1:
                 spec_clauses.append(("oob-lower-face-kept", f"{len(k1)} particle(s) kept although min(pos - boundary) < 0 (upper bounds hold), e.g. subtomo_id {k1[0][I_ID]} of tomogram {k1[0][I_TOMO]}"))
+        k2 = []
+        if op == "mask":
+            k2_set = {tuple(_fr(v) for v in w) for w in _k2_rows(case, obs)}
+            k2 = [r for r in removed_wrong if r in k2_set]
+            removed_wrong = [r for r in removed_wrong if r not in k2_set]
+            if k2:
+                spec_clauses.append(("mask-same-id-removed", f"{len(k2)} particle(s) on non-zero voxels removed because another particle of the same tomogram with the same subtomo_id sits on a zero voxel, e.g. subtomo_id {k2[0][I_ID]} of tomogram {k2[0][I_TOMO]}"))
         if kept_wrong:
             spec_clauses.append((f"{op}-keeps-outside", f"{len(kept_wrong)} particle(s) kept that the property removes, e.g. subtomo_id {kept_wrong[0][I_ID]} of tomogram {kept_wrong[0][I_TOMO]}"))
         if removed_wrong:
             spec_clauses.append((f"{op}-removes-inside", f"{len(removed_wrong)} particle(s) removed that the property keeps, e.g. subtomo_id {removed_wrong[0][I_ID]} of tomogram {removed_wrong[0][I_TOMO]}"))
-        if not (altered or multiplied or kept_wrong or removed_wrong or (op == "oob" and k1)):
+        if not (altered or multiplied or kept_wrong or removed_wrong or (op == "oob" and k1) or k2):
             out.append(dict(kind="corr", clause="order-or-multiplicity", detail=f"{op}: same particles, different order" + (" inside a tomogram" if op == "points" else "") + " than the model"))
     for cl, det in spec_clauses:
         out.append(dict(kind="spec", clause=cl, detail=det))
     # correspondence with the model of the code as it is today
-    only_k1 = all(c == "oob-lower-face-kept" for c, _ in spec_clauses)
+    only_k1 = all(c in ("oob-lower-face-kept", "mask-same-id-removed") for c, _ in spec_clauses)
     impl_c = _impl_result(obs, code.get("error"))
     if only_k1 and not (same(impl_c["rows"], code["rows"]) if ("rows" in impl_c and "rows" in code) else impl_c == code):
         impl = impl_c
@@ -1827,6 +1979,9 @@ def classify(case, obs, finding):
     if finding.get("kind") == "spec" and cl.split("@")[0] == "oob-lower-face-kept" and k < _n_calls(case) \
             and _k1_rows(_sub_case(case, k), _sub_obs(obs, k)):
         return "C09-K1"
+    if finding.get("kind") == "spec" and cl.split("@")[0] == "mask-same-id-removed" and k < _n_calls(case) \
+            and _k2_rows(_sub_case(case, k), _sub_obs(obs, k)):
+        return "C09-K2"
     return None
 
 
@@ -1917,6 +2072,7 @@ def stats(case, obs, resps):
             st["box"] = "1-8" if case["box"] <= 8 else ("9-32" if case["box"] <= 32 else ("33-64" if case["box"] <= 64 else ("65-128" if case["box"] <= 128 else "129-260")))
             st["largest dimension"] = (lambda d: "<=128" if d <= 128 else ("129-1024" if d <= 1024 else "1025-4200"))(max([max(d[1:]) for d in case["dims"]] or [0]) / SCALE)
         st["K1-class particles"] = "yes" if _k1_rows(case, obs) else "no"
+        st["largest tomogram number"] = (lambda t: "<=204" if t <= 204 else ("<2^24" if t < 2 ** 24 else ">=2^24"))(max([r[I_TOMO] for r in case["rows"]] or [0]) // SCALE)
         st["box mod 4"] = str(case["box"] % 4) if (case["bt"] == "whole" and case["box"]) else "-"
         st["dims handed over as"] = case.get("dims_as", "ndarray")
         d = [x[0] for x in case["dims"]]
@@ -1924,6 +2080,10 @@ def stats(case, obs, resps):
     if op == "trim":
         st["trim box handed over as"] = case.get("args_as", "list")
     if op == "mask":
+        st["K2-class particles"] = "yes" if _k2_rows(case, obs) else "no"
+        st["mask list well-formed (cleanMask_spec_iff)"] = str(_mask_wellformed(case))
+        st["largest listed tomogram number"] = (lambda t: "<=204" if t <= 204 else ("<2^24" if t < 2 ** 24 else ">=2^24"))(max(case["tomos"] or [0]) // SCALE) + \
+            (" in a file" if case.get("tomos_as") == "file" else "")
         st["mask form"] = ("single " if case.get("single") else "list of ") + case.get("masks_as", "arrays")
         st["tomogram list handed over as"] = case.get("tomos_as", "list") + (" (unsorted)" if case["tomos"] != sorted(case["tomos"]) else "")
         st["mask axis lengths"] = "three distinct" if any(len(set(m["shape"])) == 3 for m in case["masks"]) else "some equal"
@@ -1937,6 +2097,7 @@ def stats(case, obs, resps):
     st["particle table"] = f"{op}:" + case.get("motl_dtype", "float") + "64, row labels " + case.get("index_as", "0..n-1")
     if obs.get("dims_relabelled"):
         st["dims frame relabelled in place"] = "yes"
+    st["verbatim / re-picked copies of rows"] = f"{op}:" + ("yes" if len({tuple(r[3:13]) for r in case["rows"]}) < len(case["rows"]) else "no")
     st["calls in the history"] = f"{op}:{_n_calls(case)}"
     if case.get("more"):
         st["edited between calls"] = [f"{op}:{k}" for nxt in case["more"] for k in nxt if k != "rows"] or [f"{op}:nothing (same arguments)"]
